@@ -34,4 +34,49 @@ PROPS = {
     },
 }
 
+LIST_TRUSTED = PREDICATE_TRUSTED + [
+    "list model of pyvc: a Python list is (backing array, window lo..hi) behind a reference; append/pop(0)/pop(-1)/extend/slice/[*xs]/item assignment follow DESIGN.md 3.1",
+    "sum(r.length for r in rows) == cum(rows, len(rows)) (builtin axiom defining the ghost `cum`)",
+    "dict model: get / item assignment / truthiness of the value (presence map + value map per dictionary object)",
+]
+
+PROPS["C12"] = {
+    "level": "proof",
+    "technique": "deductive verification of add_scaffold / scaffold_by_name / find_overlaps / OverlapResult.__init__ from the real AST against sidecar contracts (loop invariants for the binary search, both extension loops and both gap-stripping loops), lemma linking the index to row spans; bounded brute-force scan as cross-check and replay source",
+    "level_text": "For scaffolds of any length and all query intervals 1 <= a <= b the real find_overlaps is proved to return None exactly when no contig row's span meets the query, and otherwise the window of rows lo..hi with hit(lo), hit(hi) contigs, every contig hit inside, every row inside hit, rows == source rows lo..hi (same objects), start/end == coordinates of the first/last returned row, and to raise only for an unknown or empty scaffold (every subscript is a discharged safety obligation). The index invariant it relies on (idx[k] == cum(k+1), strictly increasing) is proved of add_scaffold.",
+    "level_note": "Trusted: pyvc encoding incl. list and dict model, SMT solvers, the builtin axiom sum-of-lengths == cum. Input validity as preconditions: every row at least 1 bp (Gap validates nothing), a scaffold does not list the same Fragment object twice, the scaffold's rows are not changed after add_scaffold. Termination: variants given for the three while loops.",
+    "lemmas": ["c12_index_is_span"],
+    "bounded": [("bounded.c12", {})],
+    "trusted": LIST_TRUSTED,
+    "assumptions": [
+        "rows valid: every Fragment/Gap row has length >= 1 (precondition; Gap does not validate its length)",
+        "the indexed scaffold's row list is not modified after IndexedAssembly.add_scaffold (class invariant stated as precondition of find_overlaps)",
+        "a scaffold does not contain the same Fragment object twice (precondition)",
+    ],
+    "explanation": "proof of the lookup for all scaffolds and queries; bounded scan as cross-check",
+}
+PROPS["C18"] = {
+    "level": "proof",
+    "technique": "deductive verification of every OverlapResult operation against a representation invariant (ghost source window lo..hi, trims ts/te) re-established by each operation; span == total row length by an explicit induction lemma; bounded exhaustive edit sequences as cross-check and replay source",
+    "level_text": "find_overlaps is proved to establish, and discard_start, discard_end, trim_large_overhangs, trim_fragment to preserve, the invariant wf: rows are source rows lo..hi with only the terminal fragments shortened (by ts / te bases, strand-aware), first and last rows are fragments, start == 1 + cum(lo) + ts, end == cum(hi+1) - te; hence for every accepted edit sequence of any length the span equals the rows (lemma by induction), no terminal gap exists, and the overhang / bait-overlap / what-if properties equal plain interval arithmetic (each proved as result == formula).",
+    "level_note": "Trusted: pyvc encoding (lists, object identity of Fragment via allocation stamps), SMT solvers, the induction principle used by lemma c18_span_equals_rows (base and step are discharged). Nothing is claimed after an operation has raised (trim_fragment may have moved start before Fragment() rejects an empty interval).",
+    "lemmas": ["c18_span_equals_rows"],
+    "bounded": [("bounded.c18", {})],
+    "trusted": LIST_TRUSTED + ["induction over the number of rows (meta-step of lemma c18_span_equals_rows)", "generator expression filtering bait tags is an order-preserving filter (builtin axiom)"],
+    "assumptions": ["source scaffold rows valid (>= 1 bp) and not modified while overlap results derived from it are in use", "Gap object identity (memoised instances) is not modelled"],
+    "explanation": "representation invariant proved for every operation; bounded edit sequences as cross-check",
+}
+
+PROPS["C06"] = {
+    "level": "proof",
+    "technique": "deductive verification of format_agp from the real AST (loop invariant p == cum(i); per-iteration postcondition: exactly the line of row i and a newline are written), tiling lemma over the contract; bounded AGP re-reading of everything the tools write as cross-check",
+    "level_text": "format_agp is proved, for assemblies of any size, to write in each iteration of its row loop exactly one line whose columns are agp_cols(object name, cum(i), i, row_i) followed by one newline, with the running position equal to the total length of the rows before; the lemma shows that these columns tile the object from 1 without hole or overlap, count parts from 1, give sequence rows an object span equal to the component span and gap rows ('U', 'yes', gap type) a span equal to their stated length, and end at Scaffold.length. Every AGP the tools write goes through format_agp (call sites in asm_format, pretext_to_asm.write_assembly and FastaIndex.write_assembly: checked by the bounded tier on real files).",
+    "level_note": "Trusted: pyvc encoding; a for loop runs its body once per element in order (the per-iteration postcondition is composed over iterations by the loop semantics, not by an explicit whole-file invariant); str(int) is the decimal rendering; text file objects accept write() in order. The equality of the FASTA record length with the last object end rests on C03's contracts and is checked by the bounded tier.",
+    "lemmas": ["c06_rows_tile_object"],
+    "bounded": [("bounded.c06", {})],
+    "trusted": LIST_TRUSTED + ['"\\t".join(cols) is modelled as an uninterpreted function of the column list', "sequential composition of per-iteration postconditions over a for loop"],
+    "assumptions": ["the file object passed to format_agp appends each write() in order", "gap rows may have length 0 here (nothing in C06 needs more)"],
+    "explanation": "format_agp proved per written line; tiling lemma; bounded re-reading of written AGP files",
+}
+
 NOT_APPLICABLE = {}
